@@ -23,6 +23,9 @@ import (
 	"github.com/avfs/avfs"
 )
 
+// maxFileSize is the maximum size of a file (1 TiB), larger sizes and offsets are rejected as invalid arguments.
+const maxFileSize = 1 << 40
+
 // OrefaFS implements a memory file system using the avfs.VFS interface.
 type OrefaFS struct {
 	nodes           nodes        // nodes is the map of nodes (files or directories) where the key is the absolute path.
